@@ -168,6 +168,9 @@ def run(ctx):
     shared.load_errors_propagate_rule(ctx, "C12.R3")
     from . import harvest
     harvest.failed_save_rule(ctx, "C12.R4")
+    from . import c11
+    c11.no_removal_rule(ctx, "C12.R5", actors=c11.ACTORS_LOAD, floor=3,
+                        title="nothing on the Reaper's load path or in a progress query removes a file: a reap that fails (or is partial) leaves every grown result in place")
 
     sl = ctx.res.slice(entries, stop={"xyzpy.gen.combo_runner.combo_runner_to_ds", "xyzpy.gen.combo_runner.combo_runner_core"})
     sl = [f for f in sl if f.module.name == "xyzpy.gen.cropping"]
